@@ -288,6 +288,15 @@ func typeTags(t *Recipe) []string {
 				tags["payload-with-U+FFFD"] = true
 			}
 		}
+		if r.K == "Callable" && len(r.Sub) > 0 {
+			// open finding C05-callable-parameters-ambiguous: the printed parameter list is read differently when
+			// the first parameter type is a Tuple (taken for the whole parameter tuple) or, without a block type,
+			// the last one is a Callable or Optional[Callable] (taken for the block type)
+			last := r.Sub[len(r.Sub)-1]
+			if r.Sub[0].K == "Tuple" || r.Block == nil && (last.K == "Callable" || last.K == "Optional" && last.Sub[0].K == "Callable") {
+				tags["callable-parameters-ambiguous"] = true
+			}
+		}
 		if r.K == "Pattern" || r.K == "Regexp" {
 			for _, s := range append([]string{r.S}, r.Strs...) {
 				if regexpNotRepresentable(s) {
